@@ -365,7 +365,11 @@ func (f *Frame) checkFrame(e Exit, anchor string) {
 			}
 			excl = append(excl, fmt.Sprintf("(not (= r %s))", m))
 		}
-		guard := and(append([]string{"(<= 0 r)", fmt.Sprintf("(< r %s)", f.entry.alloc)}, excl...)...)
+		lo := "(<= 0 r)"
+		if strings.HasPrefix(k, "E ") {
+			lo = "(< 0 r)" // array id 0 is the array of nil / zero-capacity slices: it has no elements to keep
+		}
+		guard := and(append([]string{lo, fmt.Sprintf("(< r %s)", f.entry.alloc)}, excl...)...)
 		goal := fmt.Sprintf("(forall ((r Int)) (=> %s (= (select %s r) (select %s r))))", guard, now, init)
 		vc.oblige("frame", fmt.Sprintf("%s#frame:%s@%s", name, k, anchor), e.Cond, goal, f.pos(e.Pos), "objects existing at entry and not named in modifies keep their "+k)
 	}
